@@ -537,7 +537,9 @@ class Pipeline:
                 if any(k in self.output_to_func for k in flat_scope_kwargs)
                 else compute_cache_key(
                     func.output_name,
-                    self._func_defaults(func) | func._bound | flat_scope_kwargs,
+                    # The value every function sees for a root argument: the supplied one, else
+                    # the pipeline default (a value bound in `func` does not reach upstream functions).
+                    self.defaults | flat_scope_kwargs,
                     root_args,
                 )
             )
